@@ -4,7 +4,6 @@ import (
 	"go/ast"
 	"go/token"
 	"go/types"
-	"strings"
 
 	"verif/internal/core"
 	"verif/internal/flow"
@@ -21,24 +20,7 @@ func c09DefaultRef(c *core.Ctx) {
 	rl := "pkg/filters/ratelimiter"
 	// role: the package function comparing two specs for one policy name → bool
 	var f *flow.Func
-	cands := funcsByRole(c, rl, func(g *flow.Func, fd *ast.FuncDecl) bool {
-		if fd.Recv != nil || fd.Type.Results == nil || len(fd.Type.Results.List) != 1 {
-			return false
-		}
-		if tv, ok := g.Info.Types[fd.Type.Results.List[0].Type]; !ok || tv.Type.String() != "bool" {
-			return false
-		}
-		specs, strs := 0, 0
-		for _, p := range c09params(g) {
-			switch {
-			case strings.HasSuffix(p.Type().String(), "/"+rl+".Spec"):
-				specs++
-			case p.Type().String() == "string":
-				strs++
-			}
-		}
-		return specs == 2 && strs == 1
-	})
+	cands := funcsByRole(c, rl, c09isPolicyCmp)
 	if len(cands) == 1 {
 		f = cands[0]
 		c.Count("functions_analysed", 1)
@@ -48,7 +30,7 @@ func c09DefaultRef(c *core.Ctx) {
 	if f == nil {
 		return
 	}
-	cons := fname(rl, "", f.Node.(*ast.FuncDecl).Name.Name)
+	cons := declName(f.Pkg, f.Node.(*ast.FuncDecl))
 	defF := structField(c, rl, "Spec", "DefaultPolicyRef")
 	if f.Type.Params == nil {
 		return
@@ -211,24 +193,7 @@ func c09Equality(c *core.Ctx) {
 	if f := fn(c, ur, "URLRule", "DeepEqual"); f != nil {
 		subjects = append(subjects, f)
 	}
-	polCmp := funcsByRole(c, c09flt, func(g *flow.Func, fd *ast.FuncDecl) bool {
-		if fd.Recv != nil || fd.Type.Results == nil || len(fd.Type.Results.List) != 1 {
-			return false
-		}
-		if tv, ok := g.Info.Types[fd.Type.Results.List[0].Type]; !ok || tv.Type.String() != "bool" {
-			return false
-		}
-		specs, strs := 0, 0
-		for _, p := range c09params(g) {
-			switch {
-			case strings.HasSuffix(p.Type().String(), "/"+c09flt+".Spec"):
-				specs++
-			case p.Type().String() == "string":
-				strs++
-			}
-		}
-		return specs == 2 && strs == 1
-	})
+	polCmp := funcsByRole(c, c09flt, c09isPolicyCmp)
 	subjects = append(subjects, polCmp...)
 	if !c.RequireCount("R-C09-8", "equality functions used by the carry-over decision", len(subjects), 2) {
 		return
